@@ -288,12 +288,15 @@ class C09(Check):
         self.EC = load_error_codes(self.bld)
         small = False          # the 8- and 16-bit source sub-spaces are enumerated completely in both tiers
         i = 0
-        for version in (1, 5):
-            for xt in ([1, 3, 4, 5, 6] if version == 1 else list(range(1, 12))):
-                if xt == 2:
-                    continue
-                yield gen_write_case(rng, i, version, xt, small); i += 1
-                yield gen_read_case(rng, i, version, xt, small); i += 1
+        # the deterministic part of the vectors (all 8/16-bit values, every bound and its neighbours) is the same in every
+        # round; the thorough tier adds CDF-2 and repeats with fresh random values of the wide types
+        for rnd in range(1 if tier == "quick" else 8):
+            for version in ((1, 5) if tier == "quick" else (1, 2, 5)):
+                for xt in ([1, 3, 4, 5, 6] if version != 5 else list(range(1, 12))):
+                    if xt == 2:
+                        continue
+                    yield gen_write_case(rng, i, version, xt, small); i += 1
+                    yield gen_read_case(rng, i, version, xt, small); i += 1
 
     def features(self, res):
         return res.case.name
